@@ -382,6 +382,7 @@ func init() {
 		Run: func(c *core.Ctx) []ob {
 			out := scanPRNGBuf(c)
 			out = append(out, core.Floor("PRNGBUF", nil, "byte-buffer fields of re-keyable samplers", c.Stats["prngbuf_fields"], 1)...)
+			out = append(out, control(c, "PRNGBUF", scanPRNGBuf, "(bufSampler).WithPRNG")...)
 			return out
 		}})
 }
